@@ -90,7 +90,7 @@ def one_case(rec, tap, rng, cid):
         a = pick()
         kw.update(optimal_fit_edelta=True, optimal_fit_num_samples=ns,
                   range_x=[a if np.isfinite(a) else 0.0,
-                           float(rng.choice([np.inf, 5e-6,
+                           float(rng.choice([np.inf, 5e-6, 0.0,
                                              float(xs.max()),
                                              float(np.median(xs[xs > 0])
                                                    if np.any(xs > 0)
@@ -213,7 +213,7 @@ def one_case(rec, tap, rng, cid):
                 "points_used": int(np.sum(idnt["fit range"]))}, limit=4)
 
 
-def run_shard(rec, tier, seed, shard, nshards):
+def _run_shard(rec, tier, seed, shard, nshards):
     with fitlab.MinimizeTap() as tap:
         for i in range(N_CASES[tier]):
             one_case(rec, tap, core.case_rng(seed, ID, shard, i), [shard, i])
@@ -225,3 +225,11 @@ def replay(rec, case):
     with fitlab.MinimizeTap() as tap:
         one_case(rec, tap, core.case_rng(case["seed"], ID, cid[0], cid[1]),
                  cid)
+
+
+def run_shard(rec, tier, seed, shard, nshards):
+    state0 = core.library_state()
+    try:
+        _run_shard(rec, tier, seed, shard, nshards)
+    finally:
+        core.check_library_state(rec, state0, {"id": [shard, -1]})
